@@ -177,6 +177,82 @@ BLOCK_TAGS = ('address article aside base basefont blockquote body caption cente
 NOT_BLOCK_TAGS = 'a b em i span img code kbd q s u search picture x-y my-tag blink abc h7 tablex divx'.split()
 
 
+# --- code spans that run over line ends (a small model of its own, independent of the G4 generator) ----------------------
+
+_CS_WORDS = ['foo', 'bar', 'a*b', '<b>', '&amp;', 'x', '\\', '[l](u)', '~~', 'é', '_']
+_CS_EDGES = ['', ' ', '\n', '  ', ' \n', '', ' ', '\n']
+_CS_SEPS = [' ', ' ', '\n', '  ', ' \n']
+
+
+def build_code_span(case):
+    """-> (markdown, expected html, labels).  CommonMark 6.1: line endings in the content become spaces; then, if the content
+    both begins and ends with a space and is not all spaces, one space is removed from each end.  (Continuation lines never
+    begin with white space here, so the paragraph rule that strips it does not come into play.)"""
+    import html
+    from ..gen.tape import Tape
+    t = Tape(bytes.fromhex(case['tape']))
+    ticks = '`' * (1 + t.below(2))
+    lead, trail = t.choice(_CS_EDGES), t.choice(_CS_EDGES)
+    if trail.endswith(' ') and trail != ' ' and '\n' in trail:
+        trail = '\n'
+    content = t.choice(_CS_WORDS)
+    for _ in range(t.below(4)):
+        content += t.choice(_CS_SEPS) + t.choice(_CS_WORDS)
+    raw = lead + content + trail
+    before, after = t.choice(['see ', 'a', 'see ', '(']), t.choice([' here', '', '.', ' here'])
+    para = before + ticks + raw + ticks + after
+    code = raw.replace('\n', ' ')
+    if code.startswith(' ') and code.endswith(' ') and code.strip(' ') != '':
+        code = code[1:-1]
+    inner = '%s<code>%s</code>%s' % (html.escape(before, quote=False), html.escape(code, quote=False), html.escape(after, quote=False))
+    labels = set()
+    if '\n' in lead or '\n' in trail:
+        labels.add('line-end-at-edge')
+    if '\n' in content:
+        labels.add('line-end-inside')
+    if raw.replace('\n', ' ') != code:
+        labels.add('edge-spaces-stripped')
+    lines = para.split('\n')
+    cont = t.weighted([(3, 'none'), (2, 'quote'), (1, 'quote-lazy'), (2, 'list'), (1, 'list-lazy')])
+    labels.add('container:' + cont)
+    if cont == 'none':
+        md, exp = lines, '<p>%s</p>\n' % inner
+    elif cont.startswith('quote'):
+        md = ['> ' + lines[0]] + [('> ' if cont == 'quote' else '') + x for x in lines[1:]]
+        exp = '<blockquote>\n<p>%s</p>\n</blockquote>\n' % inner
+    else:
+        md = ['- ' + lines[0]] + [('  ' if cont == 'list' else '') + x for x in lines[1:]]
+        exp = '<ul>\n<li>%s</li>\n</ul>\n' % inner
+    return '\n'.join(md) + '\n', exp, tuple(sorted(labels))
+
+
+class CodeSpanLines(HypPart):
+    name = 'code-span-lines'
+    budget = {'quick': 8000, 'thorough': 200000}
+    rule = ('one paragraph (plain, quoted, in a list item; continuation lines marked or lazy) holding a code span of 1-5 words whose '
+            'content begins / ends / is divided by spaces, double spaces and line endings in every combination; oracle: content with '
+            'line endings turned into spaces first and one space stripped from each end afterwards (CommonMark 6.1), exact HTML; '
+            'non-trivial = a line ending at an edge of the span or inside it; distinct = distinct tape')
+    required_labels = {'line-end-at-edge': 0.2, 'line-end-inside': 0.2, 'edge-spaces-stripped': 0.1, 'container:quote-lazy': 0.03}
+
+    def strategy(self, tier):
+        return hex_tapes(8, 24).map(lambda h: {'tape': h})
+
+    def describe(self, case):
+        return build_code_span(case)[0]
+
+    def check(self, case):
+        md, exp, labels = build_code_span(case)
+        nt = 'line-end-at-edge' in labels or 'line-end-inside' in labels
+        try:
+            got, _ = renderers.render('Html', {}, md)
+        except Exception as exc:
+            return Out(Fail('equivalent-html', 'raised ' + exc_sig(exc), markdown=md, error=repr(exc)), nt=nt, labels=labels)
+        if got != exp:
+            return Out(Fail('equivalent-html', 'code span over lines differs', markdown=md, actual=got, expected=exp), nt=nt, labels=labels)
+        return Out(nt=nt, labels=labels)
+
+
 class HtmlBlockTags(EnumPart):
     """'text' + newline + a line that begins with a tag.  A block-level name opens an HTML block that interrupts the
     paragraph (and takes the rest of the line with it); any other complete tag alone on its line may not interrupt a
@@ -228,7 +304,7 @@ class C03(Prop):
     )
 
     def parts(self):
-        return [Documents(), Curated(), HtmlBlockTags()]
+        return [Documents(), CodeSpanLines(), Curated(), HtmlBlockTags()]
 
 
 PROP = C03()
